@@ -1086,6 +1086,122 @@ theorem settle1_inv (cfg : Nat → Option Product) (G : Gaps) (s s' : State) (p 
         omega
       · simp [hk]; exact this
 
+/-! ### emergency shutdown (x/esm) -/
+
+/-- a vault leaves the books with its principal moved to the redemption register (supply unchanged) -/
+theorem inv_redeemVault (cfg : Nat → Option Product) (G : Gaps) (s s' : State) (p : Product) (v0 : VaultRec)
+    (hinv : InvG cfg G s) (hm : v0 ∈ s.vaults) (hp : cfg v0.product = some p)
+    (hV : s'.vaults = delVault s.vaults v0.id) (hS : s'.stables = s.stables) (hL : s'.locked = s.locked)
+    (hnv : s'.nextVault = s.nextVault) (hns : s'.nextStable = s.nextStable) (hlen : s'.length = s.length - 1)
+    (hun : s'.unsolicited = s.unsolicited)
+    (hex : ∀ d, s'.extSupply d = s.extSupply d + if d = p.denomOut then v0.amountOut else 0)
+    (hbal : ∀ d, s'.bal vm d = s.bal vm d + if d = p.denomIn then - v0.amountIn else 0)
+    (hsup : ∀ d, s'.supply d = s.supply d)
+    (hcoll : ∀ k, s'.coll k = s.coll k + if k = v0.product then - v0.amountIn else 0)
+    (hmint : ∀ k, s'.minted k = s.minted k + if k = v0.product then - v0.amountOut else 0)
+    (hlim : Limits cfg s') :
+    InvG cfg G s' := by
+  have hinv0 := hinv
+  obtain ⟨⟨hnd, hvs, hnds, hss, hls⟩, _, _, _, _⟩ := hinv
+  obtain ⟨m1, m2, m3, m4⟩ := measures_delVault cfg s.vaults v0 p hnd hm hp
+  have hlenl : ((delVault s.vaults v0.id).length : Int) = s.vaults.length - 1 := by
+    have h1 := sumBy_delBy (·.id) (fun _ => (1 : Int)) s.vaults v0 hnd hm
+    have hone : ∀ l : List VaultRec, sumBy (fun _ => (1 : Int)) l = l.length := by
+      intro l; induction l with
+      | nil => rfl
+      | cons a t ih => rw [sumBy_cons, ih]; simp; omega
+    rw [hone, hone] at h1; exact h1
+  apply inv_of_deltas cfg G s s' _ (fun _ => 0) _ _ (fun _ => 0) _ (-1) hinv0 ?_ hbal (by intro d; rw [hsup]; omega) hcoll hmint
+    (by rw [hlen]; omega) (by rw [hV, hlenl]; omega) (by intro d; rw [hun]; omega) hex
+  · intro d; simp only [collRecorded, hV, hS]; rw [m1 d]; split <;> omega
+  · intro k; simp only [collOfProduct, hV, hS, hL]; rw [m3 k]; split <;> omega
+  · intro k; simp only [mintedOfProduct, hV, hS, hL]; rw [m4 k]; split <;> omega
+  · intro d; simp only [principalRecorded, hV, hS, hL]; rw [m2 d]; split <;> omega
+  · exact hlim
+  · refine ⟨?_, ?_, by rw [hS]; exact hnds, by rw [hS, hns]; exact hss, by rw [hL]; exact hls⟩
+    · rw [hV, delVault]; exact nodup_delBy _ _ _ hnd
+    · intro w hw
+      rw [hV, delVault] at hw
+      rw [hnv]
+      exact hvs w (mem_delBy _ _ _ _ hw)
+
+theorem esmVault_inv (cfg : Nat → Option Product) (G : Gaps) (s s' : State) (p : Product) (e : Env)
+    (vaultId : Nat) (hinv : InvG cfg G s) (hpc : ∀ v ∈ s.vaults, v.id = vaultId → cfg v.product = some p)
+    (h : esmVault s p e vaultId = some s') : InvG cfg G s' := by
+  have hem : em ≠ vm := by decide
+  unfold esmVault at h
+  cases hf : findVault s vaultId with
+  | none => simp [hf] at h
+  | some v0 =>
+    simp only [hf] at h
+    split at h; · cases h
+    next hg =>
+    simp only [not_or, Decidable.not_not] at hg
+    unfold findVault at hf
+    obtain ⟨hm, hid⟩ := find_mem (·.id) s.vaults vaultId v0 hf
+    have hp := hpc v0 hm hid
+    have hv0 := hinv.1.2.1 v0 hm
+    have hprod : v0.product = p.id := hg.1
+    simp only [Option.map_eq_some_iff] at h
+    obtain ⟨s1, hb, rfl⟩ := h
+    have eff := runBank_effect _ s s1 hb
+    refine inv_redeemVault cfg G s _ p v0 hinv hm hp (by simp [eff.same.vaults]) eff.same.stables eff.same.locked
+      eff.same.nextVault eff.same.nextStable (by simp [eff.same.length]) eff.same.unsolicited ?_ ?_ ?_ ?_ ?_ ?_
+    · intro d; simp only [eff.same.extSupply, upd1_add]
+    · intro d
+      simp only [eff.vmBal, netVm, List.map_cons, List.map_nil, List.sum_cons, List.sum_nil, BankOp.dVm, hem]
+      have h5 := hv0.2.2.1
+      by_cases hd : d = p.denomIn <;> by_cases c5 : v0.amountIn > 0 <;> simp [hd, c5] <;> omega
+    · intro d
+      simp [eff.supply, netSup, BankOp.dSup]
+    · intro k; simp only [eff.same.coll, ← hprod, upd1_sub]
+    · intro k; simp only [eff.same.minted, ← hprod, upd1_sub]
+    · exact limits_del cfg s _ v0.id v0.product (-v0.amountOut) hinv.2.2.2.2.2 (by simp [eff.same.vaults])
+        (by intro k; simp only [eff.same.minted, ← hprod, upd1_sub]) (by have := hv0.2.2.2.1; omega)
+
+/-- burning coins that are not backed by a vault record (collector fees / a holder's coins against the register) -/
+theorem inv_burnExt (cfg : Nat → Option Product) (G : Gaps) (s s' : State) (acct d0 : Nat) (x : Int) (rd : Nat → Nat → Int) (ha : acct ≠ vm)
+    (hinv : InvG cfg G s)
+    (hs : s' = { s with bal := upd2 s.bal acct d0 (s.bal acct d0 - x), supply := upd1 s.supply d0 (s.supply d0 - x),
+                        extSupply := upd1 s.extSupply d0 (s.extSupply d0 - x), redeem := rd }) :
+    InvG cfg G s' := by
+  subst hs
+  have hinv0 := hinv
+  obtain ⟨hwf, _, _, _, _, hlim0⟩ := hinv
+  apply inv_of_deltas cfg G s _ (fun _ => 0) (fun d => if d = d0 then -x else 0) (fun _ => 0) (fun _ => 0)
+    (fun _ => 0) (fun d => if d = d0 then -x else 0) 0 hinv0 (by exact hwf)
+  · intro d; simp only [upd2]
+    have : ¬ (vm = acct ∧ d = d0) := fun h => ha h.1.symm
+    simp [this]
+  · intro d; simp only [upd1_sub]
+  · intro k; simp
+  · intro k; simp
+  · simp
+  · simp
+  · intro d; simp
+  · intro d; simp only [upd1_sub]
+  · intro d; simp only [collRecorded]; omega
+  · intro k; simp only [collOfProduct]; omega
+  · intro k; simp only [mintedOfProduct]; omega
+  · intro d; simp only [principalRecorded]; omega
+  · exact limits_keep cfg s _ 0 0 hlim0 rfl (by intro k; simp) (Or.inl (by omega))
+
+theorem esmCollector_inv (cfg : Nat → Option Product) (G : Gaps) (s s' : State) (app d0 : Nat) (x : Int)
+    (hinv : InvG cfg G s) (h : esmCollector s app d0 x = some s') : InvG cfg G s' := by
+  unfold esmCollector at h
+  split at h; · cases h
+  cases h
+  exact inv_burnExt cfg G s _ cm d0 x _ (by decide) hinv rfl
+
+theorem esmBurn_inv (cfg : Nat → Option Product) (G : Gaps) (s s' : State) (from_ app d0 : Nat) (x : Int)
+    (hinv : InvG cfg G s) (h : esmBurn s from_ app d0 x = some s') : InvG cfg G s' := by
+  unfold esmBurn at h
+  split at h; · cases h
+  next hg =>
+  simp only [not_or] at hg
+  cases h
+  exact inv_burnExt cfg G s _ from_ d0 x _ hg.2.2.2.1 hinv rfl
+
 def Msg.userOk : Msg → Prop
   | .create f .. | .deposit f .. | .withdraw f .. | .draw f .. | .repay f .. | .close f .. | .depositAndDraw f ..
   | .stableCreate f .. | .stableDeposit f .. | .stableWithdraw f .. | .donate f .. => f ≠ vm
@@ -1098,12 +1214,43 @@ def Msg.notSettle : Msg → Prop
 
 instance (m : Msg) : Decidable m.notSettle := by cases m <;> unfold Msg.notSettle <;> infer_instance
 
+/-- emergency redemption of a stable-mint vault leaves its record behind (finding D29): the other modelled step that
+shifts ledger equations -/
+def Msg.notEsmStable : Msg → Prop
+  | .esmStable _ => False
+  | _ => True
+
+instance (m : Msg) : Decidable m.notEsmStable := by cases m <;> unfold Msg.notEsmStable <;> infer_instance
+
 /-- **Every message (other than auction settlement) preserves the ledger invariant.** -/
 theorem step_inv (cfg : Nat → Option Product) (G : Gaps) (hc : CfgOk cfg) (s s' : State) (e : Env) (m : Msg)
-    (hm : m.userOk) (hns : m.notSettle) (hinv : InvG cfg G s) (h : step cfg s e m = some s') : InvG cfg G s' := by
+    (hm : m.userOk) (hns : m.notSettle) (hne : m.notEsmStable) (hinv : InvG cfg G s) (h : step cfg s e m = some s') : InvG cfg G s' := by
   unfold step at h
   cases m with
   | settle v => exact absurd hns (by simp [Msg.notSettle])
+  | esmStable v => exact absurd hne (by simp [Msg.notEsmStable])
+  | esmCollector a d x => exact esmCollector_inv cfg G s s' a d x hinv h
+  | esmBurn f a d x => exact esmBurn_inv cfg G s s' f a d x hinv h
+  | esmVault v =>
+    simp only [Msg.product] at h
+    cases hf : findVault s v with
+    | none => simp [hf] at h
+    | some v0 =>
+      simp only [hf, Option.map_some] at h
+      cases hp : cfg v0.product with
+      | none => simp [hp] at h
+      | some p =>
+        simp only [hp] at h
+        split at h; · cases h
+        simp only [stepP] at h
+        have hpc : ∀ w ∈ s.vaults, w.id = v → cfg w.product = some p := by
+          intro w hw hwid
+          have hnd := hinv.1.1
+          unfold findVault at hf
+          obtain ⟨hm0, hid0⟩ := find_mem (·.id) s.vaults v v0 hf
+          have : w = v0 := eq_of_nodup_map (·.id) s.vaults hnd w v0 hw hm0 (by rw [hwid, hid0])
+          rw [this]; exact hp
+        exact esmVault_inv cfg G s s' p e v hinv hpc h
   | settle1 v =>
     simp only [Msg.product] at h
     cases hf : s.locked.find? (fun x => decide (x.vaultId = v)) with
@@ -1267,6 +1414,68 @@ theorem settle_inv (cfg : Nat → Option Product) (G : Gaps) (s s' : State) (p :
       by_cases hk : k = l.product
       · subst hk; simp
         have h2 := hl.2
+        omega
+      · simp [hk]; exact this
+
+/-! ### emergency redemption of a stable-mint vault: the record stays behind (finding D29) -/
+
+/-- the offsets after the emergency redemption of stable-mint vault `r` of product `p`: custody and the published totals
+fall, the records do not -/
+def Gaps.afterEsmStable (G : Gaps) (p : Product) (r : StableRec) : Gaps :=
+  { G with cus := fun d => G.cus d - (if d = p.denomIn then (if r.amountIn > 0 then r.amountIn else 0) else 0),
+           coll := fun k => G.coll k - (if k = p.id then r.amountIn else 0),
+           mint := fun k => G.mint k - (if k = p.id then r.amountOut else 0) }
+
+theorem esmStable_inv (cfg : Nat → Option Product) (G : Gaps) (s s' : State) (p : Product) (e : Env) (stableId : Nat)
+    (hinv : InvG cfg G s) (hout : ∀ r ∈ s.stables, r.id = stableId → 0 ≤ r.amountOut)
+    (h : esmStable s p e stableId = some s') :
+    ∃ r ∈ s.stables, r.id = stableId ∧ r.product = p.id ∧ InvG cfg (G.afterEsmStable p r) s' := by
+  have hem : em ≠ vm := by decide
+  unfold esmStable at h
+  cases hf : findStable s stableId with
+  | none => simp [hf] at h
+  | some r =>
+    simp only [hf] at h
+    split at h; · cases h
+    next hg =>
+    simp only [not_or, Decidable.not_not] at hg
+    unfold findStable at hf
+    obtain ⟨hm, hid⟩ := find_mem (·.id) s.stables stableId r hf
+    simp only [Option.map_eq_some_iff] at h
+    obtain ⟨s1, hb, rfl⟩ := h
+    have eff := runBank_effect _ s s1 hb
+    obtain ⟨hwf, hcnt, hcus, htot, hsup, hlim⟩ := hinv
+    obtain ⟨hnd, hvs, hnds, hss, hls⟩ := hwf
+    refine ⟨r, hm, hid, hg.1, ⟨?_, ?_⟩, ?_, ?_, ?_, ?_, ?_⟩
+    · simpa [eff.same.vaults] using hnd
+    · exact ⟨by simpa [eff.same.vaults, eff.same.nextVault] using hvs, by simpa [eff.same.stables] using hnds,
+        by simpa [eff.same.stables, eff.same.nextStable] using hss, by simpa [eff.same.locked] using hls⟩
+    · simpa [CountOkG, eff.same.length, eff.same.vaults, Gaps.afterEsmStable] using hcnt
+    · intro d
+      have := hcus d
+      simp only [CustodyAtG, collRecorded, eff.same.vaults, eff.same.stables, eff.same.unsolicited, Gaps.afterEsmStable,
+        eff.vmBal, netVm, List.map_cons, List.map_nil, List.sum_cons, List.sum_nil, BankOp.dVm, hem] at this ⊢
+      by_cases hd : d = p.denomIn
+      · subst hd; by_cases c : r.amountIn > 0 <;> simp [c] <;> omega
+      · simp [hd]; omega
+    · intro k
+      obtain ⟨hc, hmi⟩ := htot k
+      simp only [TotalsAtG, collOfProduct, mintedOfProduct, eff.same.vaults, eff.same.stables, eff.same.locked,
+        eff.same.coll, eff.same.minted, Gaps.afterEsmStable, upd1] at hc hmi ⊢
+      by_cases hk : k = p.id
+      · subst hk; simp; constructor <;> omega
+      · simp [hk]; exact ⟨hc, hmi⟩
+    · intro d
+      have := hsup d
+      simpa [SupplyAtG, principalRecorded, eff.same.vaults, eff.same.stables, eff.same.locked, eff.same.extSupply,
+        Gaps.afterEsmStable, eff.supply, netSup, BankOp.dSup] using this
+    · refine ⟨by simpa [eff.same.vaults] using hlim.1, ?_⟩
+      intro k q hq
+      have := hlim.2 k q hq
+      simp only [eff.same.minted, upd1]
+      by_cases hk : k = p.id
+      · subst hk; simp
+        have := hout r hm hid
         omega
       · simp [hk]; exact this
 
